@@ -253,6 +253,7 @@ pub async fn run() {
     // frame of the run. Whatever the transport does with it - refuse it, which is the only sound
     // answer - what reaches the wire must still be complete frames within the limit
     let oversize = mfs < 65536 && choice(8) == 0;
+    let mut oversize_at = usize::MAX;
     if oversize {
         let a = Attach {
             name: long_string(mfs - 100 + choice(120) as usize),
@@ -273,25 +274,30 @@ pub async fn run() {
         let v = to_v(&a);
         let fits = 8 + refcodec::encode(&v).len() <= mfs;
         sim::fault(if fits { "performative-just-within-the-limit" } else { "performative-beyond-max-frame-size" });
-        sent.push(Sent { channel: 0, perf_debug: format!("{:?}", a), expect: v, payload: vec![], is_transfer: false, more: false, empty: false });
-        frames.push(Frame::new(0u16, FrameBody::Attach(a)));
+        // as the last frame of the run, or somewhere in the middle: the transport is used again after
+        // the refusal, and whatever it accepts then must reach the wire as complete frames
+        oversize_at = if choice(2) == 0 { sent.len() } else { choice(sent.len() as u32 + 1) as usize };
+        sent.insert(oversize_at, Sent { channel: 0, perf_debug: format!("{:?}", a), expect: v, payload: vec![], is_transfer: false, more: false, empty: false });
+        frames.insert(oversize_at, Frame::new(0u16, FrameBody::Attach(a)));
     }
-    let oversize_fits = oversize && 8 + refcodec::encode(&sent.last().unwrap().expect).len() <= mfs;
+    let oversize_fits = oversize && 8 + refcodec::encode(&sent[oversize_at].expect).len() <= mfs;
     if sent.iter().any(|s| s.is_transfer && s.payload.len() + 60 > mfs) {
         sim::probe("multi-frame-transfer");
     }
-    let total = sent.len();
     let arrived: Rc<RefCell<Vec<Arrived>>> = Rc::new(RefCell::new(Vec::new()));
     let arr2 = arrived.clone();
     let recv_err: Rc<RefCell<Option<String>>> = Rc::new(RefCell::new(None));
     let re2 = recv_err.clone();
     let done: crate::world::Slot<()> = crate::world::Slot::new();
     let done2 = done.clone();
-    let expect_len: Vec<usize> = sent.iter().map(|s| s.payload.len()).collect();
+    // shared with the sending side, which takes a refused frame out before it sends the next one
+    let expect_len: Rc<RefCell<Vec<usize>>> = Rc::new(RefCell::new(sent.iter().map(|s| s.payload.len()).collect()));
+    let expect_len2 = expect_len.clone();
     sim::spawn("receiving-transport", async move {
+        let expect_len = expect_len2;
         let mut idx = 0usize;
         let mut open: Option<Arrived> = None;
-        while idx < total {
+        while idx < expect_len.borrow().len() {
             match tb.next().await {
                 Some(Ok(frame)) => {
                     let Frame { channel, body } = frame;
@@ -319,7 +325,7 @@ pub async fn run() {
                             // the transport does not reassemble: a sent transfer is complete once its
                             // payload has arrived in full (the last frame keeps the `more` flag it was given)
                             let a = open.as_ref().unwrap();
-                            if a.payload.len() >= expect_len[idx] {
+                            if a.payload.len() >= expect_len.borrow()[idx] {
                                 arr2.borrow_mut().push(open.take().unwrap());
                                 idx += 1;
                             }
@@ -359,17 +365,28 @@ pub async fn run() {
         }
         done2.put(());
     });
-    let nframes = frames.len();
+    let mut removed = 0usize;
+    let mut refused_before = false;
     for (k, f) in frames.into_iter().enumerate() {
         match sim::op(&format!("transport.send frame #{}", k), ta.send(f)).await {
-            Some(Ok(())) => {}
-            Some(Err(_)) if oversize && !oversize_fits && k + 1 == nframes => {
-                // refused: nothing of it may be on the wire
-                sim::probe("oversize-performative-refused");
-                sent.pop();
+            Some(Ok(())) => {
+                if refused_before {
+                    sim::probe("frame-accepted-after-a-refusal");
+                }
+            }
+            Some(Err(_)) if oversize && !oversize_fits && (k == oversize_at || refused_before) => {
+                // refused (a transport that has refused a frame may refuse the following ones as
+                // well): nothing of it may be on the wire
+                if k == oversize_at {
+                    sim::probe("oversize-performative-refused");
+                }
+                refused_before = true;
+                sent.remove(k - removed);
+                expect_len.borrow_mut().remove(k - removed);
+                removed += 1;
             }
             Some(Err(e)) => {
-                sim::violation("send-failed", format!("sending frame #{} ({}) failed: {:?}", k, sent[k].perf_debug, e));
+                sim::violation("send-failed", format!("sending frame #{} ({}) failed: {:?}", k, sent[k - removed].perf_debug, e));
                 return;
             }
             None => return,
